@@ -13,6 +13,7 @@
 (*   incr     old --flags,date--> out             (C05, C01, C14)          *)
 (*   gate     a run of test/update seen from outside (C01)                 *)
 (*   pep      text written for {pep440_version}   (C15)                    *)
+(*   search   the compiled search pattern on a line (C07)                  *)
 (*   calinfo  cal_info(day) = nine fields         (C14, C02)               *)
 (*   weekpat  is_valid_week_pattern(P)            (C14)                    *)
 (*   mono     renderings of two consecutive days  (C14)                    *)
@@ -111,6 +112,15 @@ PepVerdict(e) ==
   ELSE IF Pep440Pattern(e.P) # e.DP THEN <<"pep:derivation-differs", Pep440Pattern(e.P)>>
   ELSE Good
 
+\* the code's compiled search pattern applied to a line (C07): e.hit = <<start, end>> (0-based, end exclusive) or <<-1, -1>>
+SearchVerdict(e) ==
+  LET m == Search(Compile(e.P), e.line)
+      want == IF m.ok THEN <<m.start - 1, m.end - 1>> ELSE <<-1, -1>> IN
+  IF want = e.hit THEN Good
+  ELSE IF ~m.ok THEN <<"search:matches-where-the-text-is-absent", e.hit>>
+  ELSE IF e.hit = <<-1, -1>> THEN <<"search:misses-the-text", want>>
+  ELSE <<"search:span", want>>
+
 CalVerdict(e) ==
   LET c == CalInfo(e.n) bad == {f \in CalFieldSet : c[f] # e.c[f]} IN
   IF bad = {} THEN Good ELSE <<"calinfo", [f \in bad |-> <<c[f], e.c[f]>>]>>
@@ -137,6 +147,7 @@ Verdict(e) ==
     [] e.ev = "incr"    -> IncrVerdict(e)
     [] e.ev = "gate"    -> GateVerdict(e)
     [] e.ev = "pep"     -> PepVerdict(e)
+    [] e.ev = "search"  -> SearchVerdict(e)
     [] e.ev = "calinfo" -> CalVerdict(e)
     [] e.ev = "weekpat" -> WeekPatVerdict(e)
     [] e.ev = "mono"    -> MonoVerdict(e)
